@@ -110,8 +110,11 @@ func checkC03(p *Prog, res *Result, tier string) {
 			return true
 		}
 		if ld, ok := v.(*ssa.UnOp); ok && ld.Op == token.MUL {
-			if _, ok := ld.X.(*ssa.FieldAddr); ok {
-				return true
+			if fa, ok := ld.X.(*ssa.FieldAddr); ok {
+				// a field of a configuration object reached through a pointer - not a field of a local struct variable
+				if _, isLocal := fa.X.(*ssa.Alloc); !isLocal {
+					return true
+				}
 			}
 		}
 		// a byte-string literal: []byte("...")
